@@ -1,0 +1,14 @@
+//go:build verif
+
+package cli
+
+import (
+	"github.com/prometheus/alertmanager/api/v2/models"
+	"github.com/prometheus/alertmanager/dispatch"
+)
+
+// VerifResolveAlertReceivers exposes resolveAlertReceivers (amtool config
+// routes test) to the verification harness.
+func VerifResolveAlertReceivers(mainRoute *dispatch.Route, labels *models.LabelSet) ([]string, error) {
+	return resolveAlertReceivers(mainRoute, labels)
+}
